@@ -582,6 +582,13 @@ Proof.
   - rewrite app_length, skipn_length, Hl. lia.
 Qed.
 
+(* ------------------------------------------------------------------ response status *)
+
+Lemma status_ok_spec : forall st, status_ok st = true <-> 200 <= st < 300.
+Proof.
+  intros st. unfold status_ok. rewrite Z.eqb_eq. Z.to_euclidean_division_equations; lia.
+Qed.
+
 (* ------------------------------------------------------------------ witnesses *)
 
 Definition cfg_w := mkCfg 6 2 true.
